@@ -365,6 +365,10 @@ fn replay(report: &mut Report, v: &Value) {
     if v["engine"] == "e2" {
         return replay_tokens(report, v);
     }
+    if v["variant_case"].is_null() {
+        // a single case with absolute expectations (the extern-enum sentinel vectors)
+        return crate::campaign::replay_e1(report, v);
+    }
     let c0: crate::e1::E1Case = match serde_json::from_value(v["case"].clone()) {
         Ok(c) => c,
         Err(e) => return report.infra(format!("replay: {}", e)),
